@@ -760,10 +760,26 @@ def _install(M):
     def _id(ex, a, k, l):
         return id(a[0])
 
+    @reg("functools.partial")
+    def _partial(ex, a, k, l):
+        f, pa, pk = a[0], list(a[1:]), dict(k)
+
+        def call(ex_, a2, k2, l2):
+            kw = dict(pk)
+            kw.update(k2)
+            return ex_.call(f, pa + list(a2), kw, l2)
+        return Builtin("partial", call)
+
     @reg("copy.copy")
     def _copy(ex, a, k, l):
         """shallow copy: a new object sharing the field values"""
         x = a[0]
+        if isinstance(x, Obj) and hasattr(x.cls, "lookup"):
+            r = x.cls.lookup("__copy__")
+            if r is not None and r[0] == "method":      # the class customises copying: run its real code
+                o = ex.call_function(r[2], [], {}, bound=x, line=l)
+                ex.last_copy = (x, o)
+                return o
         if isinstance(x, Obj):
             o = Obj(x.cls, dict(x.fields), label=(x.label or "") + "(copy)")
             ex.last_copy = (x, o)
@@ -773,6 +789,40 @@ def _install(M):
         if isinstance(x, (list, dict)):
             return type(x)(x)
         return x
+
+    @reg("copy.deepcopy")
+    def _deepcopy(ex, a, k, l):
+        """deep copy of the modelled value kinds (arrays by value, objects through __deepcopy__ when defined)"""
+        x = a[0]
+        memo = a[1] if len(a) > 1 else k.get("memo", {})
+
+        def dc(v):
+            if isinstance(v, Obj) and id(v) in memo:
+                return memo[id(v)]
+            if isinstance(v, Obj) and hasattr(v.cls, "lookup"):
+                r = v.cls.lookup("__deepcopy__")
+                if r is not None and r[0] == "method":
+                    return ex.call_function(r[2], [memo], {}, bound=v, line=l)
+            if isinstance(v, Obj):
+                if v.fields.get("__singleton__"):
+                    return v
+                o = Obj(v.cls, {}, label=(v.label or "") + "(deepcopy)")
+                memo[id(v)] = o
+                for key, val in v.fields.items():
+                    o.fields[key] = dc(val)
+                return o
+            if isinstance(v, SymArr):
+                return v.snapshot()
+            if isinstance(v, list):
+                return [dc(e) for e in v]
+            if isinstance(v, tuple):
+                return tuple(dc(e) for e in v)
+            if isinstance(v, dict):
+                return {kk: dc(vv) for kk, vv in v.items()}
+            return v
+        return dc(x)
+
+    M.table["id"] = Builtin("id", lambda ex, a, k, l: id(a[0]))
 
     for nm in ("Exception", "ValueError", "TypeError", "KeyError", "IndexError", "NotImplementedError",
                "AttributeError", "RuntimeError"):
@@ -910,6 +960,30 @@ def _install(M):
         if not shape:
             return cell([])
         return lam_array(shape, dt, cell, name="tensordot")
+
+    @reg("numpy.ndim")
+    def _ndim(ex, a, k, l):
+        x = a[0]
+        if isinstance(x, SymArr):
+            return len(x.shape)
+        if isinstance(x, (list, tuple)):
+            d, y = 0, x
+            while isinstance(y, (list, tuple)):
+                d += 1
+                if not y:
+                    break
+                y = y[0]
+            return d
+        if isinstance(x, Cx) or is_z3(x) or isinstance(x, (int, float, complex)):
+            return 0
+        raise Unsupported("numpy.ndim of %r @%s" % (x, l))
+
+    @reg("numpy.shape")
+    def _shape(ex, a, k, l):
+        x = a[0]
+        if isinstance(x, SymArr):
+            return tuple(x.shape)
+        raise Unsupported("numpy.shape of %r @%s" % (x, l))
 
     @reg("numpy.transpose")
     def _ntr(ex, a, k, l):
